@@ -1,0 +1,58 @@
+//go:build verif
+// +build verif
+
+// Contracts for the deductive verifier in /verif (govc): the Log functions that change the
+// segment list (C13, C14, C09). Comment-only file.
+//
+// The ghost set Log.gin (the segments of the list) is updated by ghost assignments anchored after
+// the call that links or unlinks a segment (directive ghostcode).
+
+package log
+
+//@ ghost func lfile(string, uint64) uint64
+
+//@ func segmentFile
+//@   trusted
+//@   ensures result0 == lfile(dir, prevIndex)
+
+//@ func connect
+//@   modifies s1.next, s2.prev
+//@   ensures s1.next == s2 && s2.prev == s1
+
+//@ func disconnect
+//@   modifies s1.next, s2.prev
+//@   ensures s1.next == nil && s2.prev == nil
+
+// T-fs (trusted): creating or mapping a segment file. A file that did not exist is created empty
+// (createSegment: zero header); a file that exists was left by a run that kept CrashOK at every
+// crash point (C14), so what is mapped is a well-formed, fully durable segment.
+//@ func openSegment
+//@   trusted
+//@   modifies fs
+//@   ensures result1 != nil ==> result0 == nil
+//@   ensures result1 == nil ==> result0 != nil && isfresh(result0) && result0.prevIndex == prevIndex && result0.prev == nil && result0.next == nil && result0.file != nil && isfresh(result0.file) && isfresh(arrof(result0.file.Data)) && SegGood(result0) && result0.synced == result0.n && fs[lfile(dir, prevIndex)]
+//@   ensures result1 == nil && !old(fs[lfile(dir, prevIndex)]) ==> result0.n == 0 && result0.size == 0 && len(result0.file.Data) == opt.SegmentSize
+//@   ensures forall(p, p != lfile(dir, prevIndex) ==> fs[p] == old(fs[p]))
+//@   ensures result1 != nil ==> fs[lfile(dir, prevIndex)] == old(fs[lfile(dir, prevIndex)])
+
+//@ func (*Log).Commit
+//@   requires LogShape(l) && l.index == nil
+//@   modifies segment.synced, elems(uint8), mmap.File.gdur
+//@   ensures [C14.commit-keeps-shape] LogShape(l) && l.first == old(l.first) && l.last == old(l.last)
+//@   ensures [C14+C10.commit-all] result0 == nil ==> forall(x, l.gin[x] && SN(x) > 0 ==> SSy(x) == SN(x))
+//@   ensures [C13.commit-frame] forall(x, l.gin[x] ==> SegKept(x))
+
+// Append: the entry becomes the last one, nothing else moves; a full segment is committed before the
+// next one is linked, so at most the last segment is ever dirty.
+//@ func (*Log).Append
+//@   requires LogShape(l) && l.index == nil
+//@   requires LogLast(l) < 18446744073709551614 && len(b) <= 1099511627776 && l.opt.SegmentSize >= 1024
+//@   requires forall(x, l.gin[x] ==> arrof(b) != SArr(x))
+//@   requires [C14.no-stale-segment] !fs[lfile(l.dir, LogLast(l))] || l.last.n == 0
+//@   modifies l.last, l.opt.SegmentSize, l.gin, segment.n, segment.size, segment.synced, segment.next, segment.prev, elems(uint8), mmap.File.gdur, fs
+//@   ensures [C13.append-keeps-shape] LogShape(l) && l.first == old(l.first)
+//@   ensures [C13.append-last] result0 == nil ==> LogLast(l) == old(LogLast(l)) + 1 && LogPrev(l) == old(LogPrev(l))
+//@   ensures [C13.append-failed] result0 != nil ==> LogLast(l) == old(LogLast(l)) && l.last == old(l.last) && l.gin == old(l.gin)
+//@   ensures [C13.append-others-kept] forall(x, old(l.gin[x]) && x != old(ref(l.last)) ==> l.gin[x] && SegKept(x))
+//@   ensures [C14.roll-commits] result0 == nil && l.last != old(l.last) ==> old(l.last).synced == old(l.last).n && l.last.n == 1
+//@   ghostcode after call connect 1: l.gin[ref(s)] := true
